@@ -26,6 +26,17 @@ pub mod ut {
             pub struct String(pub u8);
         }
     }
+    // user types whose path ends with the *whole* module path of one of the five shortened std
+    // types (seed S_p17: a path match that is not anchored at the first segment shortens these too)
+    pub mod alloc {
+        pub mod string { pub struct String(pub u16); }
+        pub mod vec { pub struct Vec<T>(pub T, pub u8); }
+        pub mod boxed { pub struct Box<T>(pub T, pub u8); }
+    }
+    pub mod core {
+        pub mod option { pub struct Option<T>(pub T, pub u8); }
+        pub mod result { pub struct Result<T, E>(pub T, pub E, pub u8); }
+    }
 }
 
 fn squeeze(s: &str) -> String {
@@ -140,6 +151,9 @@ fn main() {
     // user-crate types, alone and inside / around std constructors
     level1!(&mut rep, bx_types::ut::Inner, bx_types::ut::deep::Deeper, bx_types::ut::deep::string::String, bx_types::ut::Wrap<String>, bx_types::ut::Wrap<bx_types::ut::Inner>,
         bx_types::ut::Wrap<Vec<bx_types::ut::deep::Deeper>>);
+    level1!(&mut rep, bx_types::ut::alloc::string::String, bx_types::ut::alloc::vec::Vec<u32>, bx_types::ut::alloc::boxed::Box<String>,
+        bx_types::ut::core::option::Option<u32>, bx_types::ut::core::result::Result<u8, Vec<u16>>,
+        bx_types::ut::core::option::Option<Option<bx_types::ut::alloc::vec::Vec<u8>>>);
     let res = json!({"depth": depth, "checked": rep.checked, "distinct_types": rep.distinct.len(), "lookups": rep.lookups,
         "violations": rep.violations, "samples": rep.samples});
     println!("{}", serde_json::to_string_pretty(&res).unwrap());
